@@ -3256,6 +3256,12 @@ class TLSConnection(TLSRecordLayer):
                 signature_scheme = dc_sig_scheme
                 scheme = SignatureScheme.toRepr(signature_scheme)
 
+            if scheme is None:
+                for result in self._sendError(
+                        AlertDescription.missing_extension,
+                        "No signature algorithm usable with the server "
+                        "certificate was offered"):
+                    yield result
             signature_scheme = getattr(SignatureScheme, scheme)
             self.serverSigAlg = signature_scheme
             signature_context = \
@@ -3889,7 +3895,8 @@ class TLSConnection(TLSRecordLayer):
         # start negotiating the parameters of the connection
 
         sni_ext = clientHello.getExtension(ExtensionType.server_name)
-        if sni_ext:
+        # the extension may carry only names of a type other than host_name
+        if sni_ext and sni_ext.hostNames:
             name = sni_ext.hostNames[0].decode('ascii', 'strict')
             # warn the client if the name didn't match the expected value
             if sni and sni != name:
@@ -4759,17 +4766,15 @@ class TLSConnection(TLSRecordLayer):
                     str(alert)):
                 yield result
         except TLSIllegalParameterException as alert:
-            alert = Alert().create(AlertDescription.illegal_parameter,
-                                           AlertLevel.fatal)
-            for result in self._sendError(alert):
+            for result in self._sendError(
+                    AlertDescription.illegal_parameter,
+                    str(alert)):
                 yield result
-            raise
         except TLSDecodeError as alert:
-            alert = Alert().create(AlertDescription.decode_error,
-                                           AlertLevel.fatal)
-            for result in self._sendError(alert):
+            for result in self._sendError(
+                    AlertDescription.decode_error,
+                    str(alert)):
                 yield result
-            raise
         if serverKeyExchange is not None:
             msgs.append(serverKeyExchange)
         if reqCert:
